@@ -302,6 +302,13 @@ def check(prog, rep):
                     saved[nm] = v
         construct = f"{qual.split(':')[1]}:{g}"
         if not saved:
+            # a helper that installs / restores values it is GIVEN (context-manager generator, install(handler, restore)):
+            # the save lives in its caller; this function-local typestate does not span the two
+            fparams = {a.arg for a in fi.node.args.args + fi.node.args.kwonlyargs}
+            from_param = [v_ for _k, _n, v_ in sites if isinstance(v_, ast.Name) and v_.id in fparams and v_.id not in assigns]
+            if from_param:
+                rep.undecided(f"{construct}: writes {g} from its parameter(s) ({', '.join(sorted({v_.id for v_ in from_param}))}); the save / restore pairing spans its callers and is not decided by this rule")
+                continue
             rep.ob("R20.2", construct, False,
                    f"{g} is written but its previous value is never saved in this function: it cannot be restored",
                    loc=f"{fi.module.rel}:{sites[0][1].lineno}", detail="no-save")
@@ -399,6 +406,9 @@ def check(prog, rep):
                 continue
             for h in tr.handlers:
                 ok, why = _handler_fails_closed(h)
+                if ok is None:
+                    rep.undecided(f"{construct}: {why}")
+                    continue
                 rep.ob("R20.5", construct, ok, why, loc=f"{fi.module.rel}:{h.lineno}", detail=f"handler:{src(h.type) if h.type else 'bare'}")
     rep.saw("backend call sites", n_backend)
     if n_backend == 0:
@@ -486,6 +496,9 @@ def _handler_fails_closed(h):
 
     term = terminal(h.body)
     if term is None:
+        # records the exception in a local for the code after the try to act on?  then the verdict depends on that code
+        if h.name and any(isinstance(n, ast.Assign) and any(isinstance(x, ast.Name) and x.id == h.name for x in ast.walk(n.value)) for st in h.body for n in ast.walk(st)):
+            return None, f"the handler stores the exception ({h.name}) and falls through: what the code after the try does with it is not followed"
         return False, "the handler can fall through and continue the solve with no result (exception swallowed)"
     for r in outs:
         v = r.value
@@ -598,11 +611,37 @@ def _published_keys(prog, fi, val, depth=0):
     return None
 
 
+def _literal_keys(v):
+    """keys of a dict display / dict(...) call; None when some part is not a literal key (a ** expansion, a computed key)"""
+    if isinstance(v, ast.Dict):
+        if any(k is None or not isinstance(k, ast.Constant) for k in v.keys):
+            return None
+        return {k.value for k in v.keys}
+    if isinstance(v, ast.Call) and dotted(v.func) == "dict" and not v.args:
+        if any(kw.arg is None for kw in v.keywords):
+            return None
+        return {kw.arg for kw in v.keywords}
+    return None
+
+
 def _must_keys(pf):
-    """Keys stored into the returned dict on every path to every return of producer ``pf``."""
-    rets = [n for n in walk_local(pf.node, include_self=False) if isinstance(n, ast.Return) and isinstance(n.value, ast.Name)]
-    if not rets:
-        return set()
+    """Keys stored into the returned dict on every path to every return of producer ``pf``; None when a return value
+    is neither a local dict built in the function nor a dict display."""
+    all_rets = [n for n in walk_local(pf.node, include_self=False) if isinstance(n, ast.Return) and n.value is not None]
+    if not all_rets:
+        return None
+    direct = [n for n in all_rets if not isinstance(n.value, ast.Name)]
+    if direct:
+        keys = None
+        for n in all_rets:
+            ks = _literal_keys(n.value)
+            if ks is None:
+                return None
+            keys = ks if keys is None else keys & ks
+        return keys
+    rets = all_rets
+    if len({n.value.id for n in rets}) != 1:
+        return None
     name = rets[0].value.id
     init = set()
 
@@ -613,8 +652,9 @@ def _must_keys(pf):
         if isinstance(node, (ast.Assign, ast.AnnAssign)):
             tg = node.targets if isinstance(node, ast.Assign) else [node.target]
             for t in tg:
-                if isinstance(t, ast.Name) and t.id == name and isinstance(node.value, ast.Dict):
-                    f = {k.value for k in node.value.keys if isinstance(k, ast.Constant)}
+                if isinstance(t, ast.Name) and t.id == name:
+                    ks = _literal_keys(node.value)
+                    f = set(ks) if ks is not None else {"?unknown"}
         for x in ast.walk(node):
             if isinstance(x, ast.Subscript) and isinstance(x.ctx, ast.Store) and isinstance(x.value, ast.Name) and x.value.id == name and isinstance(x.slice, ast.Constant):
                 f.add(x.slice.value)
@@ -624,5 +664,7 @@ def _must_keys(pf):
     keys = None
     for k, n, f in exits:
         if k == "return":
+            if "?unknown" in f:
+                return None
             keys = set(f) if keys is None else keys & set(f)
-    return keys or set()
+    return keys
